@@ -113,7 +113,7 @@ def classifyBlock (specs : List Spec) (y : Out) (g : List (Res (CV × BT))) : St
   if ys == gs then "-"
   else if ys == "reject|crash" && gs == "reject" then
     -- rejected by the first walk and by Go: in the domain, unless some spec is one on which a walk panics
-    (match (labels 0 stages resolved g).find? (fun c => c == "bool-shift-panic" || c == "node-panic") with
+    (match (labels 0 stages resolved g).find? (fun c => c == "node-panic") with
      | some c => c
      | none => "-")
   else
